@@ -117,8 +117,8 @@ func Build(invocations []invocation.Invocation, receipts []receipt.AnyReceipt) (
 				return nil, fmt.Errorf("receipt %s does not name its invocation", rcpt.Root().Link())
 			}
 			key := ran.String()
-			report.Keys = append(report.Keys, key)
 			if _, ok := report.Values[key]; !ok {
+				report.Keys = append(report.Keys, key)
 				report.Values[key] = rcpt.Root().Link()
 			}
 		}
